@@ -697,18 +697,36 @@ def run_and_validate(scens, nshards=NCPU, keep=False, proto=False):
     """Run scenarios on the real code and validate every trace with TLC.
     Returns dict(viol=[(scen, monitor, line, detail)], hangs=[...], events=n, traces=n, wall_h, wall_t, workdir)."""
     work = tempfile.mkdtemp(prefix="cvrun-")
+    # (scenarios differ widely in cost -- a sweep is hundreds of runs: four times as many shards as
+    # workers, handed out as workers become free, keep the last worker from running on alone)
+    workers = nshards
+    if nshards > 1 and len(scens) > nshards:
+        nshards = min(len(scens), 4 * nshards)
     shards = shard(scens, nshards)
+    nshards = workers
     t0 = time.time()
     with ThreadPoolExecutor(max_workers=nshards) as ex:
         res = list(ex.map(lambda a: run_harness_shard(a[1], work, a[0]), enumerate(shards)))
     t1 = time.time()
+    # the traces of the shards are joined into one file per worker for TLC (a JVM start per file)
+    merged = []
+    for k in range(nshards):
+        members = [r[0] for r in res[k::nshards]]
+        if not members:
+            continue
+        mp = os.path.join(work, f"merged{k}.ndjson")
+        with open(mp, "wb") as out:
+            for tp in members:
+                with open(tp, "rb") as f:
+                    shutil.copyfileobj(f, out)
+        merged.append(mp)
     with ThreadPoolExecutor(max_workers=nshards) as ex:
-        vres = list(ex.map(lambda a: run_tlc_trace(a[1][0], work, a[0]), enumerate(res)))
+        vres = list(ex.map(lambda a: run_tlc_trace(a[1], work, a[0]), enumerate(merged)))
     t2 = time.time()
     drift, nchecked, nfaults = [], 0, 0
     if proto:
         with ThreadPoolExecutor(max_workers=nshards) as ex:
-            pres = list(ex.map(lambda a: run_tlc_proto(a[1][0], work, a[0]), enumerate(res)))
+            pres = list(ex.map(lambda a: run_tlc_proto(a[1], work, a[0]), enumerate(merged)))
         for r in pres:
             drift.extend(r["drift"])
             nchecked += r["nchecked"]
